@@ -38,4 +38,25 @@ MUTANTS = [
     N("C11", "zero test spelled flags == 0", "trace_handlers/mach.py",
       "    if not flags:\n        return [AsynchronousSystemTrapsReason.AST_NONE]\n    else:\n        return [r for r in AsynchronousSystemTrapsReason if r.value & flags]",
       "    if flags == 0:\n        return [AsynchronousSystemTrapsReason.AST_NONE]\n    reasons = []\n    for r in AsynchronousSystemTrapsReason:\n        if not r.value & flags:\n            continue\n        reasons.append(r)\n    return reasons"),
+    F("C11", "access mode looked up from what is left of the word after ticking off the named bits", "trace_handlers/bsd.py",
+      '    call_flags = []\n    for flag in (BscOpenFlags.O_RDWR, BscOpenFlags.O_WRONLY):\n        if flags & flag.value:\n            call_flags.append(flag)\n            break\n    else:  # No break.\n        call_flags.append(BscOpenFlags.O_RDONLY)\n',
+      """    rest = flags
+    for flag in (BscOpenFlags.O_CREAT, BscOpenFlags.O_APPEND, BscOpenFlags.O_TRUNC, BscOpenFlags.O_EXCL):
+        if rest & flag.value:
+            rest &= ~flag.value
+    call_flags = [_ACCESS_MODES.get(rest, BscOpenFlags.O_RDONLY)]
+""", "R9", more=[("trace_handlers/bsd.py", "def serialize_open_flags(", "_ACCESS_MODES = {0: BscOpenFlags.O_RDONLY, 1: BscOpenFlags.O_WRONLY, 2: BscOpenFlags.O_RDWR, 3: BscOpenFlags.O_RDWR}\n\n\ndef serialize_open_flags(")]),
+    N("C11", "access mode looked up from the two-bit field", "trace_handlers/bsd.py",
+      '    call_flags = []\n    for flag in (BscOpenFlags.O_RDWR, BscOpenFlags.O_WRONLY):\n        if flags & flag.value:\n            call_flags.append(flag)\n            break\n    else:  # No break.\n        call_flags.append(BscOpenFlags.O_RDONLY)\n',
+      """    call_flags = [_ACCESS_MODES.get(flags & 3, BscOpenFlags.O_RDONLY)]
+""", more=[("trace_handlers/bsd.py", "def serialize_open_flags(", "_ACCESS_MODES = {0: BscOpenFlags.O_RDONLY, 1: BscOpenFlags.O_WRONLY, 2: BscOpenFlags.O_RDWR, 3: BscOpenFlags.O_RDWR}\n\n\ndef serialize_open_flags(")]),
+    N("C11", "access mode selected by the loop variable at break", "trace_handlers/bsd.py",
+      '    call_flags = []\n    for flag in (BscOpenFlags.O_RDWR, BscOpenFlags.O_WRONLY):\n        if flags & flag.value:\n            call_flags.append(flag)\n            break\n    else:  # No break.\n        call_flags.append(BscOpenFlags.O_RDONLY)\n',
+      """    for access_mode in (BscOpenFlags.O_RDWR, BscOpenFlags.O_WRONLY):
+        if flags & access_mode.value:
+            break
+    else:
+        access_mode = BscOpenFlags.O_RDONLY
+    call_flags = [access_mode]
+"""),
 ]
